@@ -13,8 +13,8 @@ ALL = ["C%02d" % i for i in range(1, 21)]
 
 # (name, file, old, new, expected-to-fire, description). expected == [] -> control: nothing may fire (checked against `quiet`)
 M = []
-def mut(name, file, old, new, expect, desc, quiet=None):
-    M.append(dict(name=name, file=file, old=old, new=new, expect=expect, desc=desc, quiet=quiet or []))
+def mut(name, file, old, new, expect, desc, quiet=None, more=None):
+    M.append(dict(name=name, file=file, old=old, new=new, expect=expect, desc=desc, quiet=quiet or [], more=more or []))
 
 ARG = "internal/matcher/arg.go"; OPT = "internal/matcher/option.go"; OPTS = "internal/matcher/options.go"
 FSM = "internal/fsm/fsm.go"; CTX = "internal/matcher/context.go"; PARSER = "internal/parser/parser.go"
@@ -75,9 +75,7 @@ mut("after-skipped-when-action-panics", CMD, '''				Do:      c.Action,
 				Error:   newOutFlow,''', '''				Do:      c.Action,
 				Success: newOutFlow,
 				Error:   outFlow,''', ["C05"], "the After of the addressed command is skipped when its Action panics")
-mut("after-of-failing-before-runs", CMD, '''		Do:     c.Before,
-		Error:  outFlow,''', '''		Do:     c.Before,
-		Error:  newOutFlow,''', ["C05"], "the After of the level whose Before failed runs")
+mut("after-of-failing-before-runs", CMD, "\targs = args[nargsLen:]\n\tif len(args) == 0 {", "\tnewInFlow.Error = newOutFlow\n\targs = args[nargsLen:]\n\tif len(args) == 0 {", ["C05"], "the After of the level whose Before failed runs")
 mut("parseint-base-0", VAL, '''func (ia *IntValue) Set(s string) error {
 	i, err := strconv.ParseInt(s, 10, 64)''', '''func (ia *IntValue) Set(s string) error {
 	i, err := strconv.ParseInt(s, 0, 64)''', ["C13"], "int values parsed with base 0 (0x10, 017, 1_000 accepted)")
@@ -99,6 +97,7 @@ mut("help-ignores-dd", CMD, '''	for i, arg := range args {
 mut("dup-option-check-removed", OPTIONS, '''		if _, found := c.optionsIdx[name]; found {
 			panic(fmt.Sprintf("duplicate option name %q", name))
 		}''', '''		if _, found := c.optionsIdx[name]; found {
+			_ = fmt.Sprintf("duplicate option name %q", name)
 			continue
 		}''', ["C18"], "a duplicate option name is silently ignored")
 mut("dup-arg-check-removed", ARGS, '''	if _, found := c.argsIdx[arg.Name]; found {
@@ -120,7 +119,8 @@ mut("env-last-valid-wins", UTIL, '''			if !isMulti {
 					found = true
 				}
 				continue
-			}''', ["C06"], "the last valid environment variable wins instead of the first", )
+			}''', ["C06"], "the last valid environment variable wins instead of the first",
+    more=[("	multiValued, isMulti := into.(MultiValued)\n", "	multiValued, isMulti := into.(MultiValued)\n	found := false\n"), ("		}\n	}\n	return false\n}", "		}\n	}\n	return found\n}")])
 mut("multi-appends-instead-of-replacing", FSM, '''		if multiValued, ok := con.Value.(values.MultiValued); ok {
 			multiValued.Clear()
 		}''', '''		if _, ok := con.Value.(values.MultiValued); ok {
@@ -143,7 +143,8 @@ mut("empty-env-not-skipped", UTIL, '''			if len(v) == 0 {
 				continue
 			}''', '', ["C06"], "an empty environment variable is used instead of being skipped")
 mut("lexer-arg-no-underscore", LEX, "return isUppercase(c) || isDigit(c) || c == '_'", "return isUppercase(c) || isDigit(c)", ["C08"], "argument names may not contain _")
-mut("lexer-long-leading-dash", LEX, "(!first && c == '-')", "c == '-'", ["C08"], "long option names may start with a dash (---x)")
+mut("lexer-long-no-digits", LEX, "return isLetter(c) || isDigit(c) || c == '_' || (!first && c == '-')", "return isLetter(c) || c == '_' || (!first && c == '-')", ["C08"], "long option names may not contain digits")
+# (a mutation letting long names start with a dash, '---x', only changes behaviour inside the unclaimed '--' + non-name-character zone: not listed)
 mut("lexer-folded-threshold", LEX, "if pos-start > 2 {", "if pos-start > 3 {", ["C08"], "-ab lexed as a short option instead of a folded sequence")
 mut("parser-missing-back", PARSER, '''		if !declared {
 			p.back()
@@ -164,9 +165,9 @@ mut("first-raised-value-wins", FLOW, '''			s.Error.Run(e)''', '''			if p != nil 
 			s.Error.Run(e)''', ["C05"], "the first raised value wins over later ones")
 mut("panic-value-wrapped", FLOW, '''		panic(p)
 	}
-}''', '''		panic(fmt.Errorf("%v", p))
+}''', '''		panic(struct{ v interface{} }{p})
 	}
-}''', ["C05"], "the re-raised panic value is wrapped", )
+}''', ["C05"], "the re-raised panic value is wrapped")
 mut("policy-not-inherited", CMD, '''	c.commands = append(c.commands, &Cmd{
 		ErrorHandling: c.ErrorHandling,''', '''	c.commands = append(c.commands, &Cmd{''', ["C07"], "subcommands do not inherit the error policy")
 mut("usage-without-parents", CMD, '''	full := append(c.parents, c.name)
@@ -266,7 +267,7 @@ mut("revert-D3-memo", FSM, '''	if tried[here] {
 		return false
 	}
 ''', '', ["C03"], "revert of fix 898d1d5 (no memoisation of tried configurations)")
-mut("revert-D4-exclusion", OPTS, "if len(c.Opts[o]) == found {", "if o.ValueSetFromEnv {", ["C12"], "revert of fix 1577324 (env-backed option excluded after a consuming match)")
+mut("revert-D4-exclusion", OPTS, "if len(c.Opts[o]) == found {", "if o.ValueSetFromEnv {", ["C12"], "revert of fix 1577324 (env-backed option excluded after a consuming match)", more=[("		found := len(c.Opts[o])\n", "")])
 mut("revert-D6-dangling-dash", LEX, '''			default:
 				return nil, err("Was expecting an option name")
 			}''', '''			}''', ["C08"], "revert of fix d609a84 (dangling dash dropped)")
@@ -312,7 +313,11 @@ def main():
             if src.count(m["old"]) != 1:
                 res["status"] = "PATCH-DOES-NOT-APPLY (%d matches)" % src.count(m["old"])
                 results.append(res); print(res["name"], res["status"]); continue
-            open(path, "w").write(src.replace(m["old"], m["new"]))
+            src = src.replace(m["old"], m["new"])
+            for (o2, n2) in m["more"]:
+                assert src.count(o2) == 1, (m["name"], o2)
+                src = src.replace(o2, n2)
+            open(path, "w").write(src)
             b = sh("cd %s && go build ./... && go vet -tags verif . 2>&1 | head -5" % WT)
             if b.returncode != 0:
                 res["status"] = "DOES-NOT-COMPILE"; res["detail"] = (b.stdout + b.stderr)[-400:]
